@@ -65,7 +65,8 @@ pub fn prog_datum(c: &Cell, st: &mut SymTab) -> Value {
         Cell::Nil => json!({"t":"nil"}),
         Cell::Number(n) => num(n),
         Cell::String(s) => json!({"t":"str","v":cps(s)}),
-        Cell::Symbol(s) => json!({"t":"sym","v":st.id(s)}),
+        // a symbol is its name: marwood keeps the written form (inline hex escapes), the name is the decoded text
+        Cell::Symbol(s) => json!({"t":"sym","v":st.id(&symbol_name(s))}),
         Cell::Pair(_, _) => {
             let (items, tail) = list_parts(c);
             let v: Vec<Value> = items.iter().map(|i| prog_datum(i, st)).collect();
